@@ -57,6 +57,15 @@ def corpus(tier):
             out.append(('calls', c04.shape_module(sig, mode, kind, 1, 1, 2)))
     out.append(('calls', c04.recursion_module(1)))
     out.append(('memory', c05.flavour_batch()))
+    # bulk memory operations incl. overlapping memory.copy in both directions (depth-2 histories), store/store/load sequences inside one function
+    out.append(('memory-bulk', c05.history_batch((1, 3), 2, 400000)))
+    allpairs = [(a, b) for a in sorted(STORES) for b in sorted(STORES)]
+    out.append(('memory-sequences', c05.sequence_batch(allpairs[::4] if tier == 'quick' else allpairs)))
+    # control flow inside fixed contexts (dead code followed by live code, operands below value-carrying blocks)
+    Sm, pm, lm, rm = enum_cf.sigma_mid()
+    for cname, pre, suf in enum_cf.contexts():
+        for b in c03.batches_of('cf-ctx', Sm, pm, [], rm, 2 if tier == 'quick' else 3, in_ii, [('env', 'mark', 'i', 'i')], False, (pre, suf)):
+            out.append(('cf-ctx', b))
     for cfg in (('defined', 'overlap', 'defined', 2, 'defined'), ('imported', 'passive+active', 'imported', 1, 'imported'), ('none', 'none', 'none', 0, 'none')):
         out.append(('instantiate', c06.config_module(*cfg)))
     return out
@@ -72,7 +81,10 @@ def main(tier):
         for cc, flags in cl:
             san = any('sanitize' in f for f in flags)
             link = tuple(f for f in flags if 'sanitize' in f)
-            jobs.append((label, b, cc, flags, {'cc': cc, 'cflags': ('-O0',) + link, 'mod_cflags': flags, 'timeout': 1800}))
+            kw = {'cc': cc, 'cflags': ('-O0',) + link, 'mod_cflags': flags, 'timeout': 1800}
+            if getattr(b, 'main', None) == 'bfs':
+                kw['drv_args'] = (b.bfs_depth, 1500)
+            jobs.append((label, b, cc, flags, kw))
     # (i) only: names that need escaping inside C string literals / identifiers
     njobs = []
     for nm in c10.NAME_ALPHABET[:16]:
@@ -135,7 +147,7 @@ def main(tier):
     chk.add(evaluations=sum(d['evaluations'] for d in percell.values()) + ncomp)
     chk.cov['cells'] = percell
     chk.cov['name_stress_modules_compiled'] = ncomp
-    chk.cov['rule'] = ('corpus = numeric level-1 and a systematic subset of level-2 programs, all valid control-flow bodies up to N (full/ctl/typed alphabets), call, memory and '
+    chk.cov['rule'] = ('corpus = numeric level-1 and a systematic subset of level-2 programs, all valid control-flow bodies up to N (full/ctl/typed alphabets), call, memory (flavours, bulk operations with overlapping copies, store/store/load sequences in one function) and '
                        'instantiation shapes; every corpus batch is compiled in every cell of {gcc, clang} x {-O0..-O3} x {-std=gnu89, default} x {plain, '
                        '-fsanitize=address,undefined,float-cast-overflow} (quick: 5 cells) and run in lockstep with the reference: (i) no compile error, (ii) no sanitizer '
                        'report on non-trapping in-bounds inputs (trapping / out-of-bounds inputs are filtered by the reference verdict), (iii) every cell returns the '
